@@ -82,6 +82,16 @@ Theorem C14_app_judgement_sound_all : forall sc, JudgeProfiles.prof_C14 sc = tru
 Proof. exact JudgeProfiles.C14_sound_all. Qed.
 
 
+(* ---- source tie, sixth wave: ContextInstances::get and ContextInstances::remove (position + swap_remove, the group deleted
+   when empty; a failed `expect` is None) regenerated from src/input_context.rs equal Model/Registry.reg_get / reg_remove, Leibniz ---- *)
+From BEI Require Proofs.SrcTie6P.
+Theorem C14_source_registry_get : ltac:(let t := type of SrcTie6P.ContextInstances_get_tie in exact t).
+Proof. exact SrcTie6P.ContextInstances_get_tie. Qed.
+
+Theorem C14_source_registry_remove : ltac:(let t := type of SrcTie6P.ContextInstances_remove_tie in exact t).
+Proof. exact SrcTie6P.ContextInstances_remove_tie. Qed.
+
+
 Print Assumptions C14_each_holder_once.
 Print Assumptions C14_identical_payload.
 Print Assumptions C14_recipients.
@@ -146,3 +156,5 @@ Print Assumptions C14_app_judgement_sound.
 Print Assumptions C14_app_judgement_transfer.
 Print Assumptions C14_app_judgement_sound_consuming.
 Print Assumptions C14_app_judgement_sound_all.
+Print Assumptions C14_source_registry_get.
+Print Assumptions C14_source_registry_remove.
